@@ -35,6 +35,7 @@ class Gen:
         r = self.rng
         self.lines.append(f'module {MODULE}')
         self.procs, self.comps, self.events = [], [], {}
+        self.raising = []
         cid = 2
         for kind, pool, n in (('proc', self.procs, r.randint(1, 4)), ('comp', self.comps, r.randint(1, 4))):
             for _ in range(n):
@@ -49,7 +50,12 @@ class Gen:
                 inherited = self.events.get(base)
                 if inherited is not None:
                     ev = {**inherited, **(ev or {})}
-                self.lines.append(self.cls_line(cid, kind, r.randint(-2, 2) if kind == 'proc' else 0, ev, base))
+                line = self.cls_line(cid, kind, r.randint(-2, 2) if kind == 'proc' else 0, ev, base)
+                if self.with_raises and r.random() < 0.4:
+                    # scripted constructor failures: the n-th calls of the class raise
+                    line += ' raise=' + self.pick(['0', '0', '1', '0,1', '2'])
+                    self.raising.append(cid)
+                self.lines.append(line)
                 pool.append(cid)
                 self.events[cid] = ev
                 cid += 1
@@ -173,6 +179,9 @@ class Gen:
         """one argument of a file description"""
         r = self.rng
         k = r.random()
+        if self.late is not None and depth == 0 and r.random() < 0.12:
+            self.late_used = True
+            return '$res{%s}' % self.dotted(self.late)
         if self.file_mode and k < 0.45:
             kind = r.random()
             if kind < 0.4:
@@ -271,6 +280,22 @@ class Gen:
                     hid += 1
             self.lines.append('step ' + self.pick(['reload', 'reload', 'load2']))
 
+    def retry_steps(self):
+        """the load fails; handle() is called again, with the cause repaired or not"""
+        r = self.rng
+        if self.late is not None:
+            if not self.late_used:
+                c = self.pick(self.comps)
+                self.lines.append('ent -')
+                self.lines.append(f'comp {enc(self.pick(self.cls_names[c]))} A1 s{enc("$res{%s}" % self.dotted(self.late))} K0')
+            if r.random() < 0.5:
+                self.lines.append('step ' + self.pick(['call', 'call', 'reload', 'load2']))
+            if r.random() < 0.85:
+                self.lines.append(f'step replace {enc(self.late)} 90')
+        for _ in range(r.randint(1, 3)):
+            self.lines.append('step ' + self.pick(['call', 'call', 'call', 'reload'] +
+                                                  (['load2'] if self.file_mode else [])))
+
     def rx_lines(self):
         r = self.rng
         alphabet = ['$', '{', '}', 'r', 'e', 's', 'h', 'a', 'n', 'd', 'l', 'x', '.', '\n', ' ', '\r', '/']
@@ -293,12 +318,24 @@ class Gen:
         else:
             mode, self.file_mode, self.intree = 'direct', False, False
         clean = r.random() < 0.8
+        handle_mode = (self.file_mode and self.intree) or mode == 'dict'
+        # loads that fail part-way and are tried again: a resource that is not in the tree yet, or a
+        # constructor that raises on scripted calls
+        self.with_raises = handle_mode and r.random() < 0.12
+        self.late, self.late_used = None, False
         self.universe()
         self.tree(with_world=self.file_mode and self.intree)
+        if self.file_mode and self.intree and clean and r.random() < 0.12:
+            parent = self.pick([''] + self.map_paths)
+            self.late = (parent + '/' if parent else '') + 'late'
         self.lines.append(f'mode {mode}')
         self.description(clean)
-        if self.file_mode and self.intree and r.random() < (0.35 if clean else 0.1):
+        if self.late is not None or (self.with_raises and self.raising):
+            self.retry_steps()
+        elif self.file_mode and self.intree and r.random() < (0.35 if clean else 0.1):
             self.steps()
+        elif handle_mode and not clean and r.random() < 0.4:
+            self.lines.append('step call')
         self.rx_lines()
         return self.lines
 
